@@ -1,0 +1,43 @@
+//go:build verif
+
+package scheduler
+
+import "time"
+
+// VerifHook is a gate: it is called outside of any lock and may block the
+// calling goroutine. It is installed by the verification harness only.
+var VerifHook func(point string, step string)
+
+// VerifTrace is a non-blocking trace point that is called with n.mu held,
+// right after the node state has been changed.
+var VerifTrace func(point string, step string, status string)
+
+func verifPoint(point string, n *Node) {
+	if h := VerifHook; h != nil {
+		name := ""
+		if n != nil {
+			name = n.data.Step.Name
+		}
+		h(point, name)
+	}
+}
+
+func verifTrace(point string, n *Node) {
+	if h := VerifTrace; h != nil {
+		h(point, n.data.Step.Name, n.data.State.Status.String())
+	}
+}
+
+// VerifSetPause overrides the fixed polling pause of the scheduling loop.
+func (sc *Scheduler) VerifSetPause(d time.Duration) { sc.pause = d }
+
+// VerifDefaultPause, when non-zero, replaces the polling pause of every
+// scheduler whose pause was not set explicitly with VerifSetPause.
+var VerifDefaultPause time.Duration
+
+func verifPause(d time.Duration) time.Duration {
+	if VerifDefaultPause > 0 && d == time.Millisecond*100 {
+		return VerifDefaultPause
+	}
+	return d
+}
